@@ -12,13 +12,21 @@
   collector was suspended in `Write`, and when the `Write` then failed the error path handled and `Put` the same
   object again. The repaired code finishes the transaction on a write error only if it is still the one registered
   under its id (`deleteIfCurrent`), which is what `release` models.
-  Not modelled: the first write inside `Start` blocking.
+  `Start`'s own first write is cut the same way (`startBegin` / `startEnd`, `start_split`). Here the pinned code has
+  a window it cannot close by itself: if the response arrives while that first `Write` is in flight and the `Write`
+  then fails, `Start` returns an error although the handler has already run (known finding F12).
 -/
 import Stun.Model.Client
 namespace Stun
 
 /-- a retransmission whose `Connection.Write` has been entered and has not returned -/
+inductive SuspKind where
+  | retransmit   -- the collector goroutine, inside handleAgentCallback
+  | start        -- a caller's goroutine, inside Client.Start
+deriving DecidableEq, Repr
+
 structure Susp where
+  kind : SuspKind := .retransmit
   h : Nat
   id : TID
   /-- the entry as re-registered by the first half (attempt already advanced) -/
@@ -45,6 +53,50 @@ def retransmitEnd (c : Client) (s : Susp) (ok : Bool) : Client × List COut :=
   let c3 := c.erase s.id
   let st := c3.agent.stop s.id
   ({ c3 with agent := st.1 }, [.call s.h s.id (if st.2.1.isSome then .stopErr else .writeErr)])
+
+/-- `Start` with a handler up to the point where `Connection.Write` is entered -/
+def startBegin (c : Client) (id : TID) (raw : Bytes) (h : Nat) : Client × Option CErr × List COut × Option Susp :=
+  if c.closed then (c, some .clientClosed, [], none) else
+  let tx : Txn := ⟨id, 0, c.rto, raw, h, c.now⟩
+  let d := nextTimeout tx tx.start
+  if (c.lookup id).isSome then (c, some .exists, [], none) else
+  let c := c.insert tx
+  match c.agent.start id d with
+  | (_, some err) => (c, some (if err == .closed then .agentClosed else .exists), [], none)
+  | (a, none) => ({ c with agent := a }, none, [.write raw (some h)], some { kind := .start, h := h, id := id, tx := tx })
+
+/-- … and from the point where it returns: on an error `Start` deletes by id, stops the agent transaction and
+    returns the error (it does not touch the handler) -/
+def startEnd (c : Client) (s : Susp) (ok : Bool) : Client × Option CErr :=
+  if ok then (c, none) else
+  let c3 := c.erase s.id
+  let st := c3.agent.stop s.id
+  ({ c3 with agent := st.1 }, some (if st.2.1.isSome then .stopErr else .write))
+
+/-- back to back the two halves are the L1 `Start` -/
+theorem start_split (c : Client) (id : TID) (raw : Bytes) (h : Nat) :
+    c.start id raw (some h) =
+      match startBegin c id raw h with
+      | (c1, e, o1, none) => (c1, e, o1)
+      | (c1, _, o1, some s) =>
+        let w := c1.connWrite raw
+        let r := startEnd w.1 s w.2
+        (r.1, r.2, o1) := by
+  unfold start startBegin startEnd
+  by_cases hc : c.closed = true
+  · simp [hc]
+  · simp only [hc, Bool.false_eq_true, if_false]
+    by_cases hl : (c.lookup id).isSome = true
+    · simp [hl]
+    · simp only [hl, Bool.false_eq_true, if_false]
+      generalize ((c.insert ⟨id, 0, c.rto, raw, h, c.now⟩).agent.start id
+        (nextTimeout ⟨id, 0, c.rto, raw, h, c.now⟩ (⟨id, 0, c.rto, raw, h, c.now⟩ : Txn).start)) = r
+      obtain ⟨a, e⟩ := r
+      cases e with
+      | some err => rfl
+      | none =>
+        simp only
+        split <;> simp_all
 
 /-- the two halves back to back, with the scripted connection deciding the write, are the L1 retransmission -/
 theorem retransmit_split (c : Client) (tx : Txn) (id : TID) :
@@ -124,12 +176,25 @@ def release (k : Client2) (ok : Bool) : Client2 × List COut :=
     let (k2, o2) := k1.callbacks s.rest
     (k2, o1 ++ o2)
 
+/-- `Start` whose first write blocks -/
+def startBlocked (k : Client2) (id : TID) (raw : Bytes) (h : Nat) : Client2 × Option CErr × List COut :=
+  match Client.startBegin k.c id raw h with
+  | (c1, e, o1, none) => ({ k with c := c1 }, e, o1)
+  | (c1, _, o1, some s) => ({ k with c := c1, susp := k.susp ++ [s] }, none, o1)
+
+/-- the oldest suspended call is a `Start`: its write returns, and so does `Start` -/
+def releaseStart (k : Client2) (ok : Bool) : Client2 × Option CErr :=
+  match k.susp with
+  | [] => (k, none)
+  | s :: rest => let r := Client.startEnd k.c s ok; ({ k with c := r.1, susp := rest }, r.2)
+
 end Client2
 
 inductive COp2 where
   | l1 (op : COp)                        -- any L1 operation; ticks use the blocking-aware callback
   | blockWrite (id : TID)
   | release (ok : Bool)
+  | startBlocked (id : TID) (raw : Bytes) (h : Nat)   -- Start whose first write blocks (returns at `release`)
   | deliverDecoded (tid : TID) (raw : Bytes)   -- a datagram that decoded to this id (the reader's Process + callback)
 deriving Repr
 
@@ -137,7 +202,10 @@ def Client2.step (k : Client2) : COp2 → Client2 × Option CErr × List COut
   | .l1 (.tick t) => let r := k.tick t; (r.1, none, r.2)
   | .l1 op => let r := k.c.step op; ({ k with c := r.1 }, r.2.1, r.2.2)
   | .blockWrite id => ({ k with blockIds := k.blockIds ++ [id] }, none, [])
-  | .release ok => let r := k.release ok; (r.1, none, r.2)
+  | .release ok =>
+    if (k.susp.head?.map (·.kind)) == some SuspKind.start then let r := k.releaseStart ok; (r.1, r.2, [])
+    else let r := k.release ok; (r.1, none, r.2)
+  | .startBlocked id raw h => k.startBlocked id raw h
   | .deliverDecoded tid raw => let r := k.c.deliverDecoded tid raw; ({ k with c := r.1 }, none, r.2)
 
 def Client2.run (k : Client2) : List COp2 → Client2 × List COut
